@@ -43,6 +43,20 @@ def run(ctx):
     ctx.bounds.append("parse_literal: all ids, all widths (u32), int/float/unknown, all word values and stream lengths; tracker: one step from an arbitrary tracker (inductive)")
     ctx.assumptions += ["ids defined once (a re-definition shadows; outside the claim)"]
     rp = Replay()
+    literal_lemmas(ctx, q, S, rp)
+    rp.close()
+    ctx.validated = rp.count
+    if ctx.tier == "thorough":
+        res = kani.run_many(["k_parse_literal"], cap_s=1500)
+        kani.settle(ctx, res, lambda h: h[2:])
+    ctx.extra["states"] = ctx.obligations
+    ctx.extra["transitions"] = ctx.queries
+    ctx.extra["cvc5"] = q.summary()
+    ctx.extra["explanation"] = "parse_literal and TypeTracker::track from MIR over a symbolic tracker; widths decided by z3 for all u32 widths."
+
+
+def literal_lemmas(ctx, q, S, rp):
+    """The MIR / z3 part of C10 (also run by C02 and C03, whose statements include the context-dependent literals)."""
     # ---------------- parse_literal
     fn = S.mf.get("parse_literal", file_hint="parser.rs", kind="fn")
     eng = S.engine(loop_bound=4)
@@ -111,15 +125,6 @@ def run(ctx):
     selector_choice(ctx, S)
     statics(ctx, S)
     assembler_widths(ctx, q)
-    rp.close()
-    ctx.validated = rp.count
-    if ctx.tier == "thorough":
-        res = kani.run_many(["k_parse_literal"], cap_s=1500)
-        kani.settle(ctx, res, lambda h: h[2:])
-    ctx.extra["states"] = ctx.obligations
-    ctx.extra["transitions"] = ctx.queries
-    ctx.extra["cvc5"] = q.summary()
-    ctx.extra["explanation"] = "parse_literal and TypeTracker::track from MIR over a symbolic tracker; widths decided by z3 for all u32 widths."
 
 
 def tracker_step(ctx, q, S, rp):
